@@ -64,6 +64,10 @@ class World:
                 tx = interp.deref_all(args[0])
                 self.trace.append(('reply', tx[1] if tx and tx[0] == 'otx' else tx, args[1]))
                 return ok(UNIT)
+        if name in ('tokio::task::spawn::spawn', 'tokio::task::spawn', 'tokio::spawn', 'tokio::task::spawn::spawn_local', 'tokio::runtime::handle::Handle::spawn'):
+            # a detached task: whatever it does happens after (and independently of) the handler's own return
+            self.trace.append(('spawned-detached',))
+            return ('opaque', 'join-handle')
         if name in ('tokio::time::sleep::sleep', 'tokio::time::sleep', 'tokio::time::sleep::sleep_until', 'tokio::task::yield_now::yield_now'):
             return ('future', 'sleep')
         if name.startswith('core::time::Duration::') and seg.startswith('from_'):
@@ -278,3 +282,164 @@ def check_clock_actor(ctx, facts, rule):
                bad[0][1] if bad else 'nothing', (' and leaves %d event(s) unconsumed' % len(bad[0][2])) if bad and bad[0][2] else ''),
            witness={'expected': [str(x) for x in want], 'got': [str(x) for x in (bad[0][1] if bad else [])]})
     return (R, reach)
+
+
+def lenient_unknown(interp, name, args, t):
+    """P-TRACE only: a call into another crate that is not part of the effect vocabulary (channels, replies, storage, clock)
+    cannot add to the trace; its result is an unknown value of its type (branches on it are explored both ways)"""
+    body, term = getattr(interp, 'cur', (None, None))
+    if body is None or term is None or term['dest']['p']:
+        return None
+    if name.startswith('datacake') or name.startswith('flume::') or name.startswith('tokio::sync::') or '::storage::Storage::' in name:
+        return None
+    ty = body.local_ty(term['dest']['l'])
+    if ty == 'bool':
+        return ('bool', None)
+    if ty in absint.INT_WIDTH:
+        return ('int', None)
+    if ty == '()':
+        return UNIT
+    return ('opaque', 'result-of:' + name)
+
+
+def check_clock_handle(ctx, facts, rule, ev_info=None):
+    """the client side of the clock: register_ts hands every foreign stamp to the actor (on every path), get_time asks the
+    actor and returns exactly its reply"""
+    from orswot_abs import _fallback
+    try:
+        clock = [a for n, a in facts.adts.items() if n.startswith('datacake_node::') and n.endswith('::Clock')]
+        if len(clock) != 1:
+            raise Unmodelled('Clock not found')
+        cname_ = clock[0]['def']
+        reg = [b for b in facts.bodies.values() if b.kind == 'coroutine' and not b.d['promoted'] and b.name == cname_ + '::register_ts::{closure#0}']
+        gt = [b for b in facts.bodies.values() if b.kind == 'coroutine' and not b.d['promoted'] and b.name == cname_ + '::get_time::{closure#0}']
+        if len(reg) != 1 or len(gt) != 1:
+            raise Unmodelled('Clock::register_ts / get_time not found')
+        reg, gt = reg[0], gt[0]
+        results = {}
+        for same in (False, True):
+            def run(choices, same=same):
+                ch = Chan()
+                world = World(hooks=[handle_hook])
+
+                def leaf(ty):
+                    if ty_head(ty) in ('flume::Sender', 'flume::Receiver'):
+                        return ('chan', ch)
+                    if ty in ('u8',):
+                        return ('node', 'self')
+                    if ty.endswith('HLCTimestamp'):
+                        return ('tsn', 'remote', 'self' if same else 'other')
+                    return None
+                ups = upvar_types(reg)
+                upv = {}
+                for i, ty in ups.items():
+                    if 'Clock' in ty:
+                        upv[i] = ('ref', Cell(build_value(facts, ty.lstrip('&').replace('mut ', '', 1).strip(), leaf)))
+                    else:
+                        upv[i] = build_value(facts, ty, leaf)
+                it = Interp(facts, Order({}), opaque_call=world.call)
+                it.poll_hook = world.poll
+                it.unknown_call = lenient_unknown
+                it.choices = list(choices)
+                n = max(upv) + 1
+                state = ('closure', reg.defp, [Cell(upv.get(i, ('opaque', 'u'))) for i in range(n)])
+                it.run_body(reg, [state, ('opaque', 'cx')])
+                return it.oracle_log, list(world.trace)
+            results[same] = absint.explore(run)
+
+        def run_gt(choices):
+            ch = Chan()
+            world = World(hooks=[handle_hook])
+
+            def leaf(ty):
+                if ty_head(ty) in ('flume::Sender', 'flume::Receiver'):
+                    return ('chan', ch)
+                if ty in ('u8',):
+                    return ('node', 'self')
+                return None
+            ups = upvar_types(gt)
+            upv = {}
+            for i, ty in ups.items():
+                upv[i] = ('ref', Cell(build_value(facts, ty.lstrip('&').replace('mut ', '', 1).strip(), leaf))) if 'Clock' in ty else build_value(facts, ty, leaf)
+            it = Interp(facts, Order({}), opaque_call=world.call)
+            it.poll_hook = lambda i_, pin, f: (ok(('ts', 'reply%s' % f[1])) if f is not None and f[0] == 'orx' else world.poll(i_, pin, f))
+            it.unknown_call = lenient_unknown
+            it.choices = list(choices)
+            n = max(upv) + 1
+            state = ('closure', gt.defp, [Cell(upv.get(i, ('opaque', 'u'))) for i in range(n)])
+            r = it.run_body(gt, [state, ('opaque', 'cx')])
+            return it.oracle_log, (list(world.trace), r)
+        res_gt = absint.explore(run_gt)
+    except (Unmodelled, absint.NeedChoice, IndexError, TypeError, KeyError, AttributeError) as e:
+        return _fallback(ctx, rule, e)
+    site_ = '%s:%s' % (reg.file, reg.line)
+    for same in (False, True):
+        bad = []
+        for log, tr in results[same]:
+            if tr and tr[0] == 'panic':
+                continue
+            sends = [e for e in tr if e[0] == 'chan-send']
+            carried = []
+            for e in sends:
+                found = []
+
+                def walk(v, depth=0):
+                    if v is None or depth > 5:
+                        return
+                    if v[0] == 'tsn':
+                        found.append(v)
+                    elif v[0] == 'adt':
+                        for c in v[3]:
+                            walk(c.v, depth + 1)
+                walk(e[2])
+                carried += found
+            lossy = [e[1] for e in sends if e[1].startswith('try_')]
+            if same:
+                if sends:
+                    bad.append('a stamp of this very node is sent to the actor')
+            else:
+                if len(sends) != 1 or len(carried) != 1 or carried[0][1] != 'remote':
+                    bad.append('on some path (answers %s) %s event(s) are handed to the actor: a remote stamp that is "registered" without reaching the actor is never merged, and a later '
+                               'get_time can return a stamp that is not greater than it' % ([v for _l, v in log], len(sends)))
+                if lossy:
+                    bad.append('the event is handed over with %s: it is dropped when the queue is full' % lossy)
+        ok_ = bool(results[same]) and not bad
+        ctx.ob(rule, 'register_ts|%s' % ('own stamp' if same else 'foreign stamp'), ok_, site_,
+               ('register_ts hands every foreign stamp to the actor, on every path, with a waiting send' if not same else 'register_ts ignores stamps of its own node') if ok_ else bad[0])
+    bad = []
+    for log, res in res_gt:
+        if res and res[0] == 'panic':
+            continue
+        tr, r = res
+        sends = [e for e in tr if e[0] == 'chan-send']
+        otx = []
+        for e in sends:
+            def walk(v, depth=0):
+                if v is None or depth > 5:
+                    return
+                if v[0] == 'otx':
+                    otx.append(v[1])
+                elif v[0] == 'adt':
+                    for c in v[3]:
+                        walk(c.v, depth + 1)
+            walk(e[2])
+        if len(sends) != 1 or len(otx) != 1:
+            bad.append('get_time hands %d request(s) to the actor on some path' % len(sends))
+        elif r != ('ts', 'reply%s' % otx[0]):
+            bad.append('get_time returns %s instead of the actor\'s reply to its own request' % (r,))
+    ok_ = bool(res_gt) and not bad
+    ctx.ob(rule, 'get_time|returns-the-reply', ok_, '%s:%s' % (gt.file, gt.line),
+           'get_time asks the actor once and returns exactly its reply' if ok_ else bad[0])
+    return True
+
+
+def handle_hook(world, interp, name, args, t, body):
+    seg = last_seg(name)
+    if name.startswith(HT + '::') and args:
+        a0 = interp.deref_all(args[0])
+        if a0 is not None and a0[0] == 'tsn':
+            if seg == 'node':
+                return ('node', a0[2])
+            if seg in ('as_u64', 'counter', 'seconds', 'fractional'):
+                return ('int', None)
+    return None
